@@ -15,15 +15,32 @@ def detectors():
     return {'4': RF.FourPointDetector, '3': RF.ThreePointDetector, 'F': RF.FKMDetector}
 
 
-def impl_run(kind, chunks, as_int=True):
+DENOM = 2 ** 30
+
+
+def near_tie(rng, s):
+    """Integer image K of a float signal K / 2^30 whose samples are those of the integer signal s perturbed by
+    0 or +-2^-30: ranges differ by ~1e-9 (near ties), yet every float subtraction the kernels make is exact."""
+    return [x * DENOM + rng.choice([0, 0, 0, 1, -1, 2]) for x in s]
+
+
+def impl_run(kind, chunks, as_int=True, denom=1):
     """Run the real detector over the chunks; returns the observation tuple
-    (cycles, residuals, residual_index, recorder chunks)."""
+    (cycles, residuals, residual_index, recorder chunks).
+    denom > 1: the chunks hold integers K and the detector is fed the exact floats K / denom."""
     import pylife.stress.rainflow as RF
     rec = RF.FullRecorder()
     det = detectors()[kind](recorder=rec)
     for c in chunks:
-        det.process(np.asarray(c, dtype=float))
-    conv = (lambda v: int(v)) if as_int else (lambda v: float(v))
+        det.process(np.asarray(c, dtype=float) / denom if denom != 1 else np.asarray(c, dtype=float))
+    if denom != 1:
+        def conv(v):
+            k = float(v) * denom
+            if k != int(k):
+                raise ValueError('reported value %r is not on the signal grid' % (v,))
+            return int(k)
+    else:
+        conv = (lambda v: int(v)) if as_int else (lambda v: float(v))
     vf, vt = [conv(v) for v in rec.values_from], [conv(v) for v in rec.values_to]
     if kind == 'F':
         cyc = list(zip(vf, vt))
